@@ -110,6 +110,56 @@ def probe_programs(pt, seed):
         return [sha(a[0]) + sha(a[1]), sha(b[0]) + sha(b[1]), sha(c[0]) + sha(c[1]), sha(d[0]) + sha(d[1])]
     out.append(("router_fail_then_ok", router_fail_then_ok))
 
+    def router_mixed_conventions():
+        """One router compiled under the frame-pointer convention and then under the scratch convention (and back): every result
+        must equal what a fresh router gives for that version."""
+        def mk():
+            def mkm(i):
+                def f(a: pt.abi.Uint64, b: pt.abi.Uint64, *, output: pt.abi.Uint64):
+                    t = pt.ScratchVar(pt.TealType.uint64)
+                    return pt.Seq(t.store(a.get() * pt.Int(i + 2)), output.set(t.load() + b.get()))
+                f.__name__ = "mx%d" % i
+                return pt.ABIReturnSubroutine(f)
+            r = pt.Router("x", pt.BareCallActions(no_op=pt.OnCompleteAction.create_only(pt.Approve())), clear_state=pt.Approve())
+            for i in range(3):
+                r.add_method_handler(mkm(i))
+            return r
+        fresh7 = sha(mk().compile_program(version=7)[0])
+        fresh8 = sha(mk().compile_program(version=8)[0])
+        r = mk()
+        seq = [sha(r.compile_program(version=v)[0]) for v in (8, 7, 8, 7, 6, 7)]
+        r2 = mk()
+        seq2 = [sha(r2.compile_program(version=7, optimize=pt.OptimizeOptions(frame_pointers=fp))[0]) for fp in (False, None, False)]
+        return ["7:" + fresh7, "7:" + seq[1], "7:" + seq[3], "7:" + seq[5], "7:" + seq2[0], "7:" + seq2[1], "7:" + seq2[2]] if fresh8 == seq[0] == seq[2] else ["8:" + fresh8, "8:" + seq[0], "8:" + seq[2]]
+    out.append(("router_mixed_conventions", router_mixed_conventions))
+
+    def reused_options():
+        """The same program compiled with a fresh OptimizeOptions object and with an equal one that was used for another program
+        before (the two programs share a ScratchVar that is explicitly numbered / passed by reference in the first)."""
+        res = []
+        for ss, v in ((True, 6), (None, 9), (True, 10)):
+            shared = pt.ScratchVar(pt.TealType.uint64)
+            numbered = pt.ScratchVar(pt.TealType.uint64, 17)
+
+            @pt.Subroutine(pt.TealType.none)
+            def bump(x: pt.ScratchVar):
+                return x.store(x.load() + pt.Int(1))
+            p1 = pt.Seq(shared.store(pt.Int(1)), numbered.store(pt.Int(2)), bump(shared), pt.Pop(numbered.load()), shared.load())
+            p2 = pt.Seq(shared.store(pt.Int(7)), pt.Log(pt.Itob(shared.load())), numbered.store(pt.Int(8)), numbered.load())
+            fresh = pt.compileTeal(p2, pt.Mode.Application, version=v, optimize=pt.OptimizeOptions(scratch_slots=ss))
+            oo = pt.OptimizeOptions(scratch_slots=ss)
+            pt.compileTeal(p1, pt.Mode.Application, version=v, optimize=oo)
+            reused = pt.compileTeal(p2, pt.Mode.Application, version=v, optimize=oo)
+            again = pt.compileTeal(p2, pt.Mode.Application, version=v, optimize=oo)
+            res.append([sha(fresh), sha(reused), sha(again)])
+        flat = [x for tri in res for x in tri]
+        # list semantics of the monitor: all entries of a list must be equal -> report per setting, first differing triple wins
+        for tri in res:
+            if len(set(tri)) != 1:
+                return tri
+        return [res[0][0]] * 3
+    out.append(("reused_options", reused_options))
+
     def method_call_probe(v):
         acct, asset, app = pt.abi.Account(), pt.abi.Asset(), pt.abi.Application()
         x, s = pt.abi.Uint64(), pt.abi.String()
